@@ -534,6 +534,17 @@ func (w *c09WS) open() *Server {
 	if w.req != w.edit && !w.warm {
 		openReq()
 	}
+	if w.warm && w.edit >= 0 {
+		// the same symbols are asked from the OTHER open file first, with no notification before
+		// the requests that are compared: an answer must not carry over to another document's tree
+		for _, oc := range w.files[w.edit].occs {
+			tdp := protocol.TextDocumentPositionParams{TextDocument: protocol.TextDocumentIdentifier{URI: w.uri(w.edit)}, Position: protocol.Position{Line: uint32(oc.line), Character: uint32(oc.s)}}
+			for _, withDecl := range []bool{false, true} {
+				_, _ = s.References(ctx, &protocol.ReferenceParams{TextDocumentPositionParams: tdp, Context: protocol.ReferenceContext{IncludeDeclaration: withDecl}})
+			}
+			_, _ = s.Rename(ctx, &protocol.RenameParams{TextDocumentPositionParams: tdp, NewName: "zz:other"})
+		}
+	}
 	if w.flick {
 		// the files below the requesting file leave its tree and enter it again
 		cur := w.files[w.req].cur
